@@ -4,7 +4,7 @@ from simv.checks.common import COMMON_ASSUMPTIONS, run_single, strip_private
 
 ID = "C01"
 LEVEL = "exploration"
-QUICK_RUNS = 1600
+QUICK_RUNS = 4000
 CHUNK = 20
 RULE = ("seed -> (schema, valid document, variables, resolver data tree, engine concurrency config, scheduler); the real "
         "engine's response and resolver-call history are compared with the sequential reference executor (data incl. key "
